@@ -121,6 +121,34 @@ def cps(s: str):
 
 
 # ---------------------------------------------------------------------------
+# evaluating case files: bounded parallelism and a second try when coqc died without a verdict
+# ---------------------------------------------------------------------------
+
+def _bad_idx(name, imports, gen_imports, defs, cases, ok_fun, case_type, shard=400, timeout=900, needs=None, par=4, tries=3):
+    """vlib.coq_bad_idx on groups of at most `par` shards at a time (vlib starts one coqc per shard, 12 at
+    once: several hundred MB each on a machine that other checks share).  A coqc that was killed or timed
+    out printed no Coq error and gave NO verdict: that group is evaluated again (at most `tries` times, after
+    a pause); a Coq error or an unparsable answer is never retried.  Nothing passes without an evaluated answer."""
+    import time as _time
+    bad_all, logs = [], []
+    group = max(1, shard * par)
+    for gi, start in enumerate(range(0, max(len(cases), 1), group)):
+        chunk = cases[start:start + group]
+        for attempt in range(tries):
+            bad, log = vlib.coq_bad_idx(f"{name}_g{gi}", imports, gen_imports, defs, chunk, ok_fun, case_type,
+                                        shard=shard, timeout=timeout, needs=needs)
+            if bad is not None:
+                break
+            verdictless = ("Error" not in log and "unparsable" not in log and "does not build" not in log) or "TIMEOUT" in log
+            if not verdictless or attempt == tries - 1:
+                return None, log
+            _time.sleep(20 * (attempt + 1))
+        bad_all.extend(start + i for i in bad)
+        logs.append(log[-200:])
+    return bad_all, "\n".join(logs)[-2000:]
+
+
+# ---------------------------------------------------------------------------
 # reference lexer = the running CPython
 # ---------------------------------------------------------------------------
 
@@ -450,7 +478,7 @@ def lit_tie(ctx: vlib.Ctx):
         cases.append(f"({term}, {coq_nl(cps(t2))})")
         shown.append(text)
     vlib.coq_make(["gen/K10.vo", "theories/DefaultLit.vo"])
-    bad, log = vlib.coq_bad_idx("c16_shape", "PyStrLit PyLit Splice DefaultLit", "From VerifGen Require Import K10.", defs, cases,
+    bad, log = _bad_idx("c16_shape", "PyStrLit PyLit Splice DefaultLit", "From VerifGen Require Import K10.", defs, cases,
                                 "fun c => match shape default_literal_branches (fst c) with Some l => leqb (render_lit (tab_oracle ptab) l) (snd c) | None => false end",
                                 "dval * list N", shard=500, needs=["theories/PyLit.vo", "theories/DefaultLit.vo", "gen/K10.vo"])
     nm_ = "K10-branch-table(shape)-vs-get_field_default_literal"
@@ -581,7 +609,7 @@ def float_law(ctx: vlib.Ctx):
         fl.append(rng.uniform(-1e6, 1e6))
     bad_rt = [x for x in fl if float(repr(x)) != x or math.copysign(1, float(repr(x))) != math.copysign(1, x)]
     cases = [coq_nl(cps(repr(x))) for x in fl]
-    bad, log = vlib.coq_bad_idx("c16_float", "PyStrLit PyLine", "", "Local Open Scope N_scope.\n", cases, "float_text_ok", "list N",
+    bad, log = _bad_idx("c16_float", "PyStrLit PyLine", "", "Local Open Scope N_scope.\n", cases, "float_text_ok", "list N",
                                 shard=1000, needs=["theories/PyLine.vo"])
     name = "float-repr-law (float_text_ok (repr x), float(repr x) == x)"
     if bad is None:
@@ -623,7 +651,7 @@ def line_tie(ctx: vlib.Ctx):
         shown.append(t)
         ctx.hist("line_tie", "with-literals" if e else ("rejected/not-modelled" if e is None else "no-literal"))
     ctx.coverage["line_tie_generated_texts"] = {"captured_programs": len(GENERATED), "distinct_lines": len(lines), "literal_tokens_compared": nlit}
-    bad, log = vlib.coq_bad_idx("c16_line", "PyStrLit PyLine", "", "Local Open Scope N_scope.\n", cases, "line_case_ok",
+    bad, log = _bad_idx("c16_line", "PyStrLit PyLine", "", "Local Open Scope N_scope.\n", cases, "line_case_ok",
                                 "list N * option (list lval)", shard=400, needs=["theories/PyLine.vo"])
     name = "line-tokens-model-vs-cpython-tokenizer (generated lines)"
     if bad is None:
@@ -742,7 +770,7 @@ def use_tie(ctx: vlib.Ctx):
         cases.append(f"({coq_nl(cps(t))}, {coq_uses(e)})")
         shown.append(t)
     ctx.coverage["use_tie_generated_texts"] = {"captured_programs": len(GENERATED), "distinct_programs": len(whole), "literal_roles_compared": nlit}
-    bad, log = vlib.coq_bad_idx("c16_use", "PyStrLit PyLine PyUse", "", "Local Open Scope N_scope.\n", cases, "use_case_ok",
+    bad, log = _bad_idx("c16_use", "PyStrLit PyLine PyUse", "", "Local Open Scope N_scope.\n", cases, "use_case_ok",
                                 "list N * option (list (use * lval))", shard=60, needs=["theories/PyUse.vo"])
     name = "use-roles-model-vs-cpython-ast (generated functions)"
 
@@ -817,7 +845,7 @@ def literal_repr_tie(ctx: vlib.Ctx):
         ctx.hist("literal_repr_tie", ("exact " if exact else "subclass of ") + type(payload).__name__)
     tab = sorted({c for t in texts for c in map(ord, t) if c >= 0x80 and chr(c).isprintable()})
     defs = "Local Open Scope N_scope.\nDefinition ptab : list N := " + coq_nl(tab) + ".\n"
-    bad, log = vlib.coq_bad_idx("c16_litrepr", "PyStrLit PyLit LitRepr", "From VerifGen Require Import K116a.", defs, cases,
+    bad, log = _bad_idx("c16_litrepr", "PyStrLit PyLit LitRepr", "From VerifGen Require Import K116a.", defs, cases,
                                 "lr_case_ok (tab_oracle ptab) literal_repr_bases literal_repr_hit literal_repr_fallback",
                                 "(lit * bool * list N) * list N", shard=500, needs=["theories/LitRepr.vo", "gen/K116a.vo"])
     name = "K116a-table(LitRepr.lr_model)-vs-helpers.literal_repr"
@@ -832,7 +860,7 @@ def literal_repr_tie(ctx: vlib.Ctx):
 
 
 def _corr(ctx, name, imports, defs, cases, okf, ctype, show):
-    bad, log = vlib.coq_bad_idx("c16_" + name.split("-vs-")[0].replace("-", "_"), imports, "", defs, cases, okf, ctype,
+    bad, log = _bad_idx("c16_" + name.split("-vs-")[0].replace("-", "_"), imports, "", defs, cases, okf, ctype,
                                 shard=500, needs=["theories/PyStrLit.vo", "theories/PyLit.vo"])
     if bad is None:
         ctx.correspondence(name, len(cases), -1, log)
@@ -1470,7 +1498,18 @@ def run(ctx: vlib.Ctx):
         "site_ok looks at the static text of the f-string around the value (before: no quote/#/backslash, last char not an identifier "
         "char; after: not a quote), not at text contributed by other placeholders of the same line",
     ]
-    br = ctx.theorems("props/C16_strings.vo", THEOREMS, kernels=["K10", "K116a"])
+    # a coqc that was killed (memory pressure on a shared machine) or timed out printed no Coq error: no verdict.
+    # Then the build is run again (the recorded obligations of the aborted attempt are dropped first); a Coq
+    # error - which always names a file and a line - is final at once.
+    import time as _time
+    for attempt in range(3):
+        marks = (len(ctx.obligations), len(ctx.unshown), len(ctx.axioms))
+        br = ctx.theorems("props/C16_strings.vo", THEOREMS, kernels=["K10", "K116a"])
+        if br.ok or br.failed_file is not None or attempt == 2:
+            break
+        ctx.notes.append(f"build attempt {attempt + 1} ended without a Coq verdict (killed / timed out), run again: {(br.error or '')[-200:]}")
+        del ctx.obligations[marks[0]:], ctx.unshown[marks[1]:], ctx.axioms[marks[2]:]
+        _time.sleep(30 * (attempt + 1))
     rep = k10_evidence(ctx)
     if not br.ok:
         # say which half broke: the pure string-literal theorems do not depend on /repo
